@@ -35,9 +35,44 @@ func loadKnown() []KnownFinding {
 	return k
 }
 
+// propIncludes: a property whose sufficient condition contains other properties' mechanisms also checks their obligations
+// (C01: same token stream needs the right tree (C02), faithful re-printing (C03) and literal values (C07);
+// C06: the formatted output must parse to the same tree, i.e. the printers' parenthesisation (C03)).
+var propIncludes = map[string][]string{
+	"C01": {"C02", "C03", "C07"},
+	"C06": {"C03"},
+}
+
 func hasProp(ps []string, p string) bool {
 	for _, q := range ps {
 		if q == p {
+			return true
+		}
+		for _, inc := range propIncludes[p] {
+			if q == inc {
+				return true
+			}
+		}
+	}
+	return false
+}
+
+// contractServes: the function is listed for the property, or one of its clauses is.
+func contractServes(c *Contract, prop string) bool {
+	if strings.HasSuffix(c.Key, ".#global") {
+		return false // global invariants are obligations of the package's init unit
+	}
+	if hasProp(c.Props, prop) {
+		return true
+	}
+	all := append(append([]*Clause{}, c.Ensures...), c.AtCalls...)
+	for _, ls := range c.Loops {
+		all = append(all, ls.Invariants...)
+		all = append(all, ls.Before...)
+		all = append(all, ls.Each...)
+	}
+	for _, cl := range all {
+		if hasProp(cl.Props, prop) {
 			return true
 		}
 	}
@@ -51,6 +86,28 @@ func obligationProps(con *Contract, name string) []string {
 		for _, cl := range con.Ensures {
 			if cl.Label == lab && len(cl.Props) > 0 {
 				return cl.Props
+			}
+		}
+	}
+	if strings.HasPrefix(name, "atcall@") {
+		if i := strings.LastIndex(name, "["); i >= 0 {
+			lab := name[i+1 : len(name)-1]
+			for _, cl := range con.AtCalls {
+				if cl.Label == lab && len(cl.Props) > 0 {
+					return cl.Props
+				}
+			}
+		}
+	}
+	if strings.HasPrefix(name, "before#") || strings.HasPrefix(name, "each#") {
+		if i := strings.Index(name, "["); i >= 0 {
+			lab := name[i+1 : len(name)-1]
+			for _, ls := range con.Loops {
+				for _, cl := range append(append([]*Clause{}, ls.Before...), ls.Each...) {
+					if cl.Label == lab && len(cl.Props) > 0 {
+						return cl.Props
+					}
+				}
 			}
 		}
 	}
@@ -98,13 +155,13 @@ func runCheck(repo, prop, tier string, opt Options, verbose bool) int {
 	}
 	var keys []string
 	for _, k := range sortedKeys(w.Contracts) {
-		if hasProp(w.Contracts[k].Props, prop) && !w.Contracts[k].Abstract {
+		if contractServes(w.Contracts[k], prop) && !w.Contracts[k].Abstract {
 			keys = append(keys, k)
 		}
 	}
 	var brokenKeys []string
 	for _, k := range sortedKeys(w.Broken) {
-		if hasProp(w.Broken[k].Props, prop) && !w.Broken[k].Abstract {
+		if contractServes(w.Broken[k], prop) && !w.Broken[k].Abstract {
 			brokenKeys = append(brokenKeys, k)
 		}
 	}
